@@ -238,6 +238,69 @@ theorem C06_unescape_render (ps : List Piece) (hok : ∀ p ∈ ps, p.ok) :
       have := c.toNat_lt
       omega
 
+/-! ### Which keys reach a consulted parameter (D27) -/
+
+theorem asciiLowerByte_ascii (c : UInt8) (h : (asciiLowerByte c).toNat < 128) : c.toNat < 128 := by
+  unfold asciiLowerByte at h
+  split at h
+  · omega
+  · exact h
+
+/-- ASCII lower-casing never turns a key with a byte ≥ 0x80 into an ASCII key … -/
+theorem asciiLower_isASCII (k : Bytes) (h : isASCII (asciiLower k) = true) : isASCII k = true := by
+  unfold isASCII asciiLower at *
+  rw [List.all_eq_true] at *
+  intro c hc
+  have := h (asciiLowerByte c) (List.mem_map_of_mem hc)
+  simp only [decide_eq_true_eq] at *
+  exact asciiLowerByte_ascii c this
+
+/-- … and a key it maps to `c` is `c` up to the case of ASCII letters: same length, every byte either
+the one of `c` or its upper-case form -/
+theorem asciiLower_eq_inv (k c : Bytes) (h : asciiLower k = c) :
+    k.length = c.length ∧ ∀ i (hi : i < k.length) (hc : i < c.length),
+      k[i] = c[i] ∨ (65 ≤ k[i].toNat ∧ k[i].toNat ≤ 90 ∧ k[i] + 32 = c[i]) := by
+  subst h
+  refine ⟨by simp [asciiLower], ?_⟩
+  intro i hi hc
+  simp only [asciiLower, List.getElem_map, asciiLowerByte]
+  split
+  · rename_i hr; right; exact ⟨hr.1, hr.2, rfl⟩
+  · left; trivial
+
+/-- every consulted key is ASCII -/
+theorem consulted_ascii : ∀ c ∈ consulted, isASCII c = true := by decide
+
+/-- **Unrelated parameters stay unrelated** (the sentence D27 violated): with the key normalisation of
+the repaired `parseQuery`, a parameter whose percent-decoded key contains a byte ≥ 0x80 — `peer_İd`,
+`İp`, the Kelvin sign for `k` — is stored under a key that no consulted parameter is looked up by,
+wherever it stands in the query: every consulted lookup sees what it saw without it. -/
+theorem C06_nonascii_key_unrelated (ps qs : List (Bytes × Bytes)) (k v : Bytes) (hk : isASCII k = false) :
+    ∀ c ∈ consulted, get (ps ++ (asciiLower k, v) :: qs) c = get (ps ++ qs) c := by
+  intro c hc
+  have hne : asciiLower k ≠ c := by
+    intro e
+    have := asciiLower_isASCII k (by rw [e]; exact consulted_ascii c hc)
+    rw [this] at hk; cases hk
+  unfold Query.get
+  simp only [List.reverse_append, List.reverse_cons, List.find?_append, List.append_assoc]
+  have : List.find? (fun p : Bytes × Bytes => decide (p.1 = c)) [(asciiLower k, v)] = none := by simp [hne]
+  simp [this]
+
+/-- the same for any key that is not a case variant of a consulted one -/
+theorem C06_other_key_unrelated (ps qs : List (Bytes × Bytes)) (k v : Bytes) (hk : asciiLower k ∉ consulted) :
+    ∀ c ∈ consulted, get (ps ++ (asciiLower k, v) :: qs) c = get (ps ++ qs) c := by
+  intro c hc
+  have hne : asciiLower k ≠ c := fun e => hk (e ▸ hc)
+  unfold Query.get
+  simp only [List.reverse_append, List.reverse_cons, List.find?_append, List.append_assoc]
+  have : List.find? (fun p : Bytes × Bytes => decide (p.1 = c)) [(asciiLower k, v)] = none := by simp [hne]
+  simp [this]
+
+/-- non-vacuity / the D27 input: `peer_İd` (bytes `70 65 65 72 5f c4 b0 64`) is not ASCII, so it is such a key -/
+example : isASCII [0x70, 0x65, 0x65, 0x72, 0x5f, 0xc4, 0xb0, 0x64] = false ∧
+    asciiLower [0x70, 0x65, 0x65, 0x72, 0x5f, 0xc4, 0xb0, 0x64] ≠ kPeerID := by decide
+
 /-- non-vacuity: an accepted announce exists -/
 example : ∃ r, parseAnnounce
     { lower := asciiLower, parseIP := fun _ => some ([0,0,0,0,0,0,0,0,0,0,255,255,10,1,2,3]), hdr := none, remoteHost := [] }
